@@ -262,6 +262,80 @@ def singles_cfg(lines, cfgs):
     return keep, table
 
 
+# ---- line terminators ------------------------------------------------------------------------------------------------
+# Every other phase ends lines with LF. Here every line of a three-line program gets its own terminator - LF, CRLF, and a
+# bare CR if (and only if) this tree treats a bare CR as a line end between two instructions, which is established by a probe
+# first, so that a tree that does not know CR-only line ends is not held to them - and the last line is also tried without
+# any. The pool has one line per way a line can end for the parser: code, code with a trailing comment, a comment line, a
+# macro line, a label, an empty line (seeded/C06_6: a bare CR that ends every line except a comment).
+TERM_POOL = ["nop", "mov rax, 0x10 ; trailing", "vpaddd ymm1, ymm2, ymm3", "; just a comment", "%define foo 1", "label:", "",
+             "shl rax, 1 % trailing macro"]
+
+
+def term_text(lines, terms):
+    return "".join(l + t for l, t in zip(lines, terms))
+
+
+def term_hist(lines, terms, cfg, start, per_line):
+    ops = ["c1024:p:cc", hexec.cfg_ops(cfg), "o%d" % start]
+    if per_line:
+        ops += ["A" + hexec.esc(l + t) for l, t in zip(lines, terms) if l + t]
+    else:
+        ops.append("A" + hexec.esc(term_text(lines, terms)))
+    return "\t".join(ops)
+
+
+def term_eval(obs, start, want):
+    if hexec.is_crash(obs):
+        return {"crash"}
+    asm = [hexec.Asm(o) for o in obs if o.startswith("A:")]
+    if any(a.ret != 0 for a in asm):
+        return {"rejected"}
+    got, pos = "", start
+    for a in asm:
+        got += a.hex[:2 * max(0, a.off - pos)]
+        pos = a.off
+    if pos != start + len(want) // 2:
+        return {"offset"}
+    return set() if got == want else {"bytes"}
+
+
+def terminator_phase(rep, tier):
+    pool, table = singles(TERM_POOL)
+    probe = hexec.run(["c64:p:cc\tA" + hexec.esc("nop\rret")], nproc=1)[0]
+    cr = (not hexec.is_crash(probe)) and hexec.Asm(probe[-1]).ret == 0 and hexec.Asm(probe[-1]).hex[:4] == "90c3"
+    rep.extra["bare_cr_is_a_line_end_on_this_tree"] = cr
+    rep.extra["terminator_pool"] = pool
+    T = ["\n", "\r\n"] + (["\r"] if cr else [])
+    jobs = []
+    for i, lines in enumerate(itertools.product(pool, repeat=3)):
+        for terms in itertools.product(T, T, T + [""]):
+            cfg = CFGS[i % 3]
+            for per_line in (False, True):
+                jobs.append((lines, terms, cfg, (0, 7)[i % 2], per_line))
+    if tier != "quick":       # four-line programs, one call
+        for i, lines in enumerate(itertools.product(pool, repeat=4)):
+            for terms in itertools.product(T, T, T, T + [""]):
+                jobs.append((lines, terms, CFGS[i % 3], 0, False))
+    res = hexec.run([term_hist(*j) for j in jobs])
+    for (lines, terms, cfg, start, per_line), obs in zip(jobs, res):
+        rep.evaluations += 1
+        rep.traces += 1
+        rep.transitions += 1
+        want = "".join(table[(l, cfg)] for l in lines)
+        disc = term_eval(obs, start, want)
+        rep.outcomes.add(want if not disc else tuple(sorted(disc)))
+        if disc:
+            rep.fail({"class": "terminators", "cfg": "/".join(cfg), "terms": repr(terms), "kinds": " | ".join(lines),
+                      "per_line": str(per_line)}, disc,
+                     {"term": True, "lines": list(lines), "terms": list(terms), "cfg": list(cfg), "start": start,
+                      "per_line": per_line, "want": want},
+                     "program %r %s at offset %d: %s" % (term_text(lines, terms), "one call per line" if per_line else "one call",
+                                                        start, sorted(disc)))
+    rep.bounds["terminator_programs"] = len(jobs)
+    return len(jobs)
+
+
 def splits(prog):
     k = len(prog)
     for mask in range(1 << (k - 1)):
@@ -277,6 +351,11 @@ def splits(prog):
 
 
 def replay(r, verbose=False):
+    if r.get("term"):
+        obs = hexec.run([term_hist(r["lines"], r["terms"], tuple(r["cfg"]), r["start"], r["per_line"])], nproc=1)[0]
+        if verbose:
+            print(obs)
+        return bool(term_eval(obs, r["start"], r["want"]))
     if r.get("long"):
         rep = Report(PROP, "quick", 0)
         rep.findings = []
@@ -309,7 +388,7 @@ def run(tier, seed):
     rep.rule = ("line set S (one line per parser/encoder path, kept only if it assembles alone); programs = all ordered pairs "
                 "of S, all ordered triples of a core, all programs of <= 4/5 lines over a smaller core in ALL 2^(k-1) splits "
                 "into successive calls; every line of the big corpus (one per mnemonic/form/operand-class pattern) directly before and directly after each of ~65 state-sensitive lines; start offsets {0,1,7,64}, buffer fills {00,cc,ff}, each program assembled a second "
-                "time in one call; programs of 7-20 kB on library-managed buffers in one call, in two calls split around each "
+                "time in one call; all three-line (thorough: four-line) programs over eight kinds of line with every combination of LF / CRLF / bare CR (if this tree knows it) / no final terminator, in one call and one call per line; programs of 7-20 kB on library-managed buffers in one call, in two calls split around each "
                 "growth point and one call per line around it; oracle = concatenation of the single-line outputs under the same "
                 "options (pure byte relation). distinct_nontrivial = distinct programs (line sequences)")
     S0 = line_set(tier) + NONCODE
@@ -361,8 +440,13 @@ def run(tier, seed):
     if not rep.expired():
         nlong = long_programs(rep, S, table, tier)
         rep.bounds["long_programs_internal_buffer"] = nlong
-    rep.states = len(progs) + nsweep
-    rep.distinct_n = len(progs) + nsweep
+    nterm = 0
+    if not rep.expired():
+        nterm = terminator_phase(rep, tier)
+    else:
+        rep.cut_short("terminator phase not run")
+    rep.states = len(progs) + nsweep + nterm
+    rep.distinct_n = len(progs) + nsweep + nterm
     rep.sample({"history": hist([["nop", "ret"], ["mov rax, 0x10"]], CFGS[0], 7, "cc")})
     rep.assumptions = ["instructions are position independent (numeric branch operands are displacements)"]
     return rep.finish(replay)
